@@ -399,3 +399,12 @@ Example repaired_on_witnesses :
 Proof.
   split; apply race_two_outcomes_lemma; auto using pick_min_sound.
 Qed.
+
+(* two delayed sends under sendid 7, one under 8; <cancel sendid=7> one tick later: neither of the
+   two fires, the third does, nothing is left in the maps *)
+Example cancel_shared_sendid_example :
+  let s := run dv_window pick_min (init [OSend 1 7 0 2; OSend 2 7 0 3; OSend 3 8 0 4; OCancel 7])
+               [Interp; Interp; Interp; Clock; Interp; Interp; Interp; Interp; Interp; Clock; Clock; Clock;
+                Timer; Timer; Timer; Timer; Timer] in
+  delivered (trace s) = [3] /\ pending s = [] /\ targets s = [] /\ In (ECancelDone 7 1) (trace s).
+Proof. vm_compute. repeat split. auto 10. Qed.
